@@ -215,3 +215,124 @@ Example C14_example :
 Proof.
   split; [repeat constructor|]. vm_compute. repeat split.
 Qed.
+
+(* ------------------------------------------------------------------------------
+   10. END TO END (C14 o C01): "the written samples decode through any FTDC
+   collector to exactly those values", proved across the component boundary.
+   The event collectors hand [marshal d] (RWritten d) to the wrapped ftdc collector;
+   [marshal] already yields a Bson.doc in the layout of Performance.MarshalDocument
+   (ts datetime, id int64, counters/timers/gauges sub-documents with int64 leaves
+   and the bool gauges.failed).  Composed with the structured round trip of the
+   codec + collector model (Props/C01.v C01_roundtrip, same zlib parameters).
+   Vocabulary (Proofs/ComposeEvents.v):
+     doc_perf d          = unmarshal zero_perf d        (UnmarshalDocument into a zero struct)
+     decode_perfs inflate outer = ReadStructuredMetrics over the emitted outer documents
+                           without an error, every restored document unmarshalled
+   [emit], [emitted], [read_structured], [compressing]: Model/RoundTrip.v as in C01.
+   Hypotheses beyond C14's int64_events: the timestamps lie in the range of
+   nanosecond time.Time values (Wf.date_ok: |ms| <= 9223372036854, years 1678..2262;
+   outside it the codec's date metric does not round-trip, see C01), one clock
+   reading per Add, and for NewBaseCollector(n) at most n + 1 samples (it refuses
+   more).  The unqualified kind/run/... below are Collector's; the event
+   collectors' are written Events.x. *)
+From FV.Model Require Import Metrics Codec Collector Wf RoundTrip.
+From FV.Proofs Require Import ComposeEvents.
+
+Definition dated_events (ps : list perf) : Prop := Forall (fun p => date_ok (p_ts p) = true) ps.
+
+(* a marshalled sample meets every per-document hypothesis of C01, all documents
+   have one schema with 11 metrics, all leaves are metrics (nothing is stripped),
+   and unmarshalling gives the sample back *)
+Theorem C14_marshal_fits_codec : forall p, perf_wf p = true -> date_ok (p_ts p) = true ->
+  doc_ok (marshal p) = true /\ doc_leaves_ok (marshal p) = true /\ Wf.small (enc_doc (marshal p)) /\
+  doc_has_ts_seconds (marshal p) = false /\ length (flatten_doc (marshal p)) = 11%nat /\
+  skeleton_doc (marshal p) = skeleton_doc (marshal zero_perf) /\
+  strip_doc (marshal p) = marshal p /\ doc_perf (marshal p) = Some p.
+Proof. exact marshal_facts. Qed.
+Print Assumptions C14_marshal_fits_codec.
+
+Section C14_end_to_end.
+(* zlib is a parameter, as in C01 *)
+Variable deflate : bytes -> bytes.
+Variable inflate : bytes -> option bytes.
+Hypothesis inflate_deflate : forall p, inflate (deflate p) = Some p.
+
+(* any non-empty list of written samples through any compressing ftdc collector
+   kind and chunk size: every Add and the flush succeed, the reader restores
+   exactly the marshalled documents and they unmarshal to the samples *)
+Theorem C14_written_roundtrip : forall k n ws nows,
+  compressing k = true -> 1 <= n < 2 ^ 31 -> ws <> [] -> Forall perf_ok ws ->
+  length nows = length ws -> Forall (fun t => in_i64 t = true) nows ->
+  (k = KBase -> Z.of_nat (length ws) <= n + 1) ->
+  let res := emit deflate k n (map marshal ws) nows in
+  snd res = map (fun _ => BAdd ROk) ws ++ [BFlush true] /\
+  read_structured inflate (emitted (snd (fst res))) = (Some (map marshal ws), None) /\
+  decode_perfs inflate (emitted (snd (fst res))) = Some ws.
+Proof. exact (perfs_roundtrip deflate inflate inflate_deflate). Qed.
+
+(* cumulative event collector over fresh events ps, its output through any
+   compressing ftdc collector, read back: exactly the running totals
+   totals (firstn (S j) ps), j = 0 .. length ps - 1, in order *)
+Theorem C14_end_to_end_cumulative : forall k n ps nows,
+  compressing k = true -> 1 <= n < 2 ^ 31 -> ps <> [] ->
+  int64_events ps -> dated_events ps ->
+  length nows = length ps -> Forall (fun t => in_i64 t = true) nows ->
+  (k = KBase -> Z.of_nat (length ps) <= n + 1) ->
+  let written := written_of (snd (Events.run KCumulative init (map EvNew ps))) in
+  let res := emit deflate k n (map marshal written) nows in
+  snd res = map (fun _ => BAdd ROk) ps ++ [BFlush true] /\
+  read_structured inflate (emitted (snd (fst res))) =
+    (Some (map marshal (map (fun j => totals (firstn (S j) ps)) (seq 0 (length ps)))), None) /\
+  decode_perfs inflate (emitted (snd (fst res))) =
+    Some (map (fun j => totals (firstn (S j) ps)) (seq 0 (length ps))).
+Proof. exact (end_to_end_cumulative deflate inflate inflate_deflate). Qed.
+
+(* m-sampling event collector: the samples written (and read back) are the running
+   totals at the positions j with m | j *)
+Theorem C14_end_to_end_sampling : forall m k n ps nows,
+  1 <= m -> Z.of_nat (length ps) < 2 ^ 63 ->
+  compressing k = true -> 1 <= n < 2 ^ 31 -> ps <> [] ->
+  int64_events ps -> dated_events ps ->
+  let written := written_of (snd (Events.run (KSampling m) init (map EvNew ps))) in
+  length nows = length written -> Forall (fun t => in_i64 t = true) nows ->
+  (k = KBase -> Z.of_nat (length written) <= n + 1) ->
+  let res := emit deflate k n (map marshal written) nows in
+  snd res = map (fun _ => BAdd ROk) written ++ [BFlush true] /\
+  written = map (fun j => totals (firstn (S j) ps))
+                (filter (fun j => Z.of_nat j mod m =? 0) (seq 0 (length ps))) /\
+  read_structured inflate (emitted (snd (fst res))) = (Some (map marshal written), None) /\
+  decode_perfs inflate (emitted (snd (fst res))) = Some written.
+Proof. exact (end_to_end_sampling deflate inflate inflate_deflate). Qed.
+
+(* pass-through event collector: the events themselves *)
+Theorem C14_end_to_end_passthrough : forall k n ps nows,
+  compressing k = true -> 1 <= n < 2 ^ 31 -> ps <> [] ->
+  int64_events ps -> dated_events ps ->
+  length nows = length ps -> Forall (fun t => in_i64 t = true) nows ->
+  (k = KBase -> Z.of_nat (length ps) <= n + 1) ->
+  let written := written_of (snd (Events.run KPassthrough init (map EvNew ps))) in
+  let res := emit deflate k n (map marshal written) nows in
+  snd res = map (fun _ => BAdd ROk) ps ++ [BFlush true] /\
+  read_structured inflate (emitted (snd (fst res))) = (Some (map marshal ps), None) /\
+  decode_perfs inflate (emitted (snd (fst res))) = Some ps.
+Proof. exact (end_to_end_passthrough deflate inflate inflate_deflate). Qed.
+
+End C14_end_to_end.
+
+Print Assumptions C14_written_roundtrip.
+Print Assumptions C14_end_to_end_cumulative.
+Print Assumptions C14_end_to_end_sampling.
+Print Assumptions C14_end_to_end_passthrough.
+
+(* non-vacuity: the three fresh events of C14_example satisfy the hypotheses (their
+   timestamps are dates of 1970), for the streaming collector with chunk size 2 *)
+Example C14_end_to_end_example :
+  let ps := [ex_a; ex_b; ex_c] in
+  ps <> [] /\ int64_events ps /\ dated_events ps /\ compressing KStream = true /\ 1 <= 2 < 2 ^ 31 /\
+  Forall (fun t => in_i64 t = true) [0; 0; 0] /\
+  map (fun j => totals (firstn (S j) ps)) (seq 0 (length ps)) =
+    [ ex_a; mkPerf 2000 8 (- 2 ^ 63) 2 (-20) 1 10 12 3 4 true; mkPerf 3000 9 (- 2 ^ 63) 4 (-20) 1 11 13 9 9 false ].
+Proof.
+  cbv zeta. split; [discriminate|]. split; [repeat constructor|]. split; [repeat constructor|].
+  split; [reflexivity|]. split; [split; [intro H; discriminate H|reflexivity]|]. split; [repeat constructor|]. vm_compute. reflexivity.
+Qed.
